@@ -74,6 +74,7 @@ def main():
                            env=dict(os.environ, VERIF_REPO=wt), cwd=VERIF, timeout=wall * 4 + 600)
                     lines = c.stdout.splitlines()
                     viol = [i for i, ln in enumerate(lines) if ln.startswith('VIOLATION')]
+                    res.setdefault('_replays', []).extend(lines[i].split('replay=')[-1].strip() for i in viol)
                     if viol:
                         # keep the first minimised replay file next to the seeded change
                         rp = lines[viol[0]].split('replay=')[-1].strip()
@@ -94,7 +95,12 @@ def main():
                 res['detected'] = any(v['exit'] == 1 for v in res['checks'].values())
         finally:
             sh(['git', '-C', '/repo', 'worktree', 'remove', '--force', wt])
-            sh(['rm', '-rf', os.path.join(VERIF, 'replays')])
+            for rp in res.get('_replays', []):          # only the replay files of this run (other checks may be running)
+                try:
+                    os.remove(rp)
+                except OSError:
+                    pass
+            res.pop('_replays', None)
         with open(os.path.join(d, 'result.json'), 'w') as f:
             json.dump(res, f, indent=1)
         print(sid, 'applies=%s' % res.get('applies'), 'demo=%s/%s' % (res.get('demo_exit_with_change'),
